@@ -41,7 +41,9 @@
  *     delay  max number of extra polls an event needs, cpu_direct = 1: CPU tasks are inserted with
  *            parsec_dtd_insert_task (the body is the hook), 0: through a task class + add_chore
  *     task   <place> <acc> ... ; place = c (CPU) | g<k> (mock device k)
- *            acc = <datum><r|w|x>[p]   (x = read-write, p = PARSEC_PUSHOUT on that flow)
+ *            acc = <datum><r|w|x>[p][@<ranks>]   (x = read-write, p = PARSEC_PUSHOUT on that flow; ptg mode only:
+ *            @<ranks> = one digit per successor of the flow, its rank, in the order iterate_successors enumerates
+ *            them, 0 = this rank: parsec_gpu_task_update_pushout must push out a written flow with a remote successor)
  *
  * observation line:
  *   seq:  T<k>@<dev> <copies> <state> ; ... | in: ... | data: ... | runs: ...
@@ -82,7 +84,8 @@
 #define PMOD 1000003u
 #define TILE_UNIT 64
 
-typedef struct { int place; int nacc; int d[MAXF]; char m[MAXF]; int po[MAXF]; int wait_before; } task_t;
+#define MAXS 4
+typedef struct { int place; int nacc; int d[MAXF]; char m[MAXF]; int po[MAXF]; int ns[MAXF]; int sr[MAXF][MAXS]; int wait_before; } task_t;
 typedef struct { int seq, ptg, ngpu, cap, ndata, delay, batch, cpu_direct, ntasks; task_t t[MAXT]; } case_t;
 static case_t C;
 
@@ -468,6 +471,10 @@ static int parse_case(const char *line, case_t *c) {
             if (*e != 'r' && *e != 'w' && *e != 'x') return 0;
             t->d[t->nacc] = (int)d; t->m[t->nacc] = *e; s = e + 1;
             if (*s == 'p') { t->po[t->nacc] = 1; s++; }
+            if (*s == '@') {                       /* ranks of the successors of the flow, in enumeration order (0 = this rank) */
+                s++;
+                while (*s >= '0' && *s <= '9') { if (t->ns[t->nacc] >= MAXS) return 0; t->sr[t->nacc][t->ns[t->nacc]++] = *s - '0'; s++; }
+            }
             t->nacc++;
         }
         c->ntasks++;
@@ -523,12 +530,27 @@ static int ptg_submit(parsec_device_gpu_module_t *gd, parsec_gpu_task_t *gt, par
     for (int j = 0; j < C.t[tid].nacc; j++) o->p[j] = this_task->data[j].data_out ? this_task->data[j].data_out->device_private : NULL;
     return PARSEC_HOOK_RETURN_DONE;
 }
+/* iterate_successors of the hand-made task class, as PTG-generated code does it: for every flow selected by the action
+ * mask (bit = dep_index of its output dependency), one call of the visitor per successor, with the rank the case gives
+ * it; the walk stops when the visitor says so.  Used by parsec_gpu_task_update_pushout (DISTRIBUTED build, MPI cannot
+ * send from device memory) to find the written flows a successor on another rank needs on the host. */
+static parsec_flow_t ptg_flows[MAXF]; static parsec_dep_t ptg_deps[MAXF];
+static void ptg_iterate_successors(parsec_execution_stream_t *es, const parsec_task_t *this_task, uint32_t action_mask,
+                                   parsec_ontask_function_t *ontask, void *arg) {
+    const task_t *t = &C.t[this_task->locals[0].value];
+    for (int j = 0; j < t->nacc; j++) {
+        if (!(action_mask & (1U << ptg_deps[j].dep_index))) continue;
+        for (int k = 0; k < t->ns[j]; k++)
+            if (PARSEC_ITERATE_STOP == ontask(es, this_task, this_task, &ptg_deps[j], NULL, 0, t->sr[j][k], 0, NULL, 0, arg)) return;
+    }
+}
 static int ptg_run_task(int tid) {
     const task_t *t = &C.t[tid];
-    static parsec_flow_t flows[MAXF]; static parsec_task_class_t tc; static __parsec_chore_t chores[2];
+    parsec_flow_t *flows = ptg_flows; static parsec_task_class_t tc; static __parsec_chore_t chores[2];
     if (t->place <= 0) return -1;
-    memset(&tc, 0, sizeof tc); memset(flows, 0, sizeof flows); memset(chores, 0, sizeof chores);
+    memset(&tc, 0, sizeof tc); memset(ptg_flows, 0, sizeof ptg_flows); memset(ptg_deps, 0, sizeof ptg_deps); memset(chores, 0, sizeof chores);
     tc.name = "P"; tc.nb_flows = (uint8_t)t->nacc; tc.release_task = ptg_release_task;
+    tc.iterate_successors = ptg_iterate_successors;
     chores[0].type = PARSEC_DEV_CUDA; chores[0].hook = (parsec_hook_t *)ptg_release_task; chores[1].type = PARSEC_DEV_NONE;
     tc.incarnations = chores;
     parsec_task_t *task = calloc(1, sizeof(parsec_task_t));
@@ -543,6 +565,8 @@ static int ptg_run_task(int tid) {
         flows[j].name = "F"; flows[j].flow_index = (uint8_t)j;
         flows[j].flow_flags = t->m[j] == 'r' ? PARSEC_FLOW_ACCESS_READ : t->m[j] == 'w' ? PARSEC_FLOW_ACCESS_WRITE : PARSEC_FLOW_ACCESS_RW;
         tc.in[j] = &flows[j]; tc.out[j] = &flows[j];
+        ptg_deps[j].dep_index = (uint8_t)j; ptg_deps[j].belongs_to = &flows[j]; ptg_deps[j].flow = &flows[j];
+        flows[j].dep_out[0] = &ptg_deps[j];
         if (t->po[j]) gt->pushout |= (uint16_t)(1 << j);
         /* the input copy: the last writer's output if it is still attached, else the host copy of the collection */
         if (cur_dev[d] > 0 && g_data[d]->device_copies[devidx(cur_dev[d] - 1)] != cur_copy[d]) { cur_dev[d] = 0; cur_copy[d] = g_data[d]->device_copies[0]; }
